@@ -602,6 +602,8 @@ struct E1 : Engine {
 					// the server chose not to keep the connection alive: legitimate for HTTP (keep-alive is optional), not for FastCGI KEEP_CONN
 					if(cl->proto == 2){ res.fail("keepalive-connection-dropped",who + ": FastCGI connection with KEEP_CONN was closed before this request was answered"); break; }
 					continue; }
+				// framing has to suit the protocol version of the request: an HTTP/1.0 peer does not know the chunked transfer coding (RFC 7230 3.3.1)
+				if(cl->proto == 0 && !e.http11 && e.resp.chunked && e.well_formed){ res.fail("bad-response-framing",who + ": chunked transfer coding in the response to an HTTP/1.0 request (Connection: " + hdr(e.resp,"Connection") + ")"); break; }
 				if(!e.resp.framing_error.empty()){ res.fail("bad-response-framing",who + ": " + e.resp.framing_error + " | raw head: " + esc(e.raw.substr(0,120))); break; }
 				if(cl->proto == 2){ if(!e.fo.framing_error.empty()){ res.fail("bad-response-framing",who + ": " + e.fo.framing_error); break; } if(!e.fo.end){ res.fail("bad-response-framing",who + ": no END_REQUEST record"); break; } if(!e.fo.empty_stdout_seen && !e.fo.out.empty()){ res.fail("bad-response-framing",who + ": STDOUT stream not closed by an empty record"); break; }
 					if(e.fo.proto_status != 0 || e.fo.app_status != 0){ res.fail("bad-response-framing",who + ": END_REQUEST status " + std::to_string(e.fo.proto_status) + "/" + std::to_string(e.fo.app_status)); break; } }
